@@ -16,6 +16,8 @@ uint16_t sym_u16(const char* name);
 uint32_t sym_u32(const char* name);
 uint64_t sym_u64(const char* name);
 float sym_f32(const char* name);
+float sym_real(const char* name); // Real mode (C20): an arbitrary real number; natively the nearest float of the model value
+float sym_pi();
 void sym_bytes(void* p, unsigned long n, const char* name);
 void sym_assume(bool c);
 void sym_assert(bool c, const char* id_colon_msg);
@@ -33,6 +35,7 @@ void sym_out_truncate(unsigned long n);
 void sym_out_read(void* dst, unsigned long pos, unsigned long n);
 void sym_out_write(const void* src, unsigned long pos, unsigned long n);
 void sym_set_truncation();
+void sym_set_truncation_range(unsigned long lo, unsigned long hi); // truncation point T with lo <= T <= hi
 // heap primitives (engine only; native: trivially true, ASan does the memory checking)
 bool sym_heap_disjoint(void* a, unsigned long na, void* b, unsigned long nb);
 bool sym_deep_equal(void* a, unsigned long na, void* b, unsigned long nb);
